@@ -411,6 +411,53 @@ def lower_primitive_operator_calls(facts, body_cls):
     return n
 
 
+def resolve_into_calls(facts, body_cls):
+    """`x.into()` is `Dst::from(x)` (the blanket impl of Into): where the exporter left the call on `Into::into` and the crate
+    has `impl From<Src> for Dst` for the argument's type, the call is redirected to that function. Returns the number of calls."""
+    import re
+    n = 0
+    for q, b in list(facts.bodies.items()):
+        rec = b.rec
+        hit = False
+        for bl in rec['blocks']:
+            t = bl['term']
+            c = t.get('callee') if t.get('k') == 'call' else None
+            if not c or c.get('path') != 'core::convert::Into::into' or len(t['args']) != 1:
+                continue
+            gen = c.get('gen') or []
+            pl = t['args'][0].get('copy') or t['args'][0].get('move') or t['args'][0].get('const') or {}
+            src = str(pl.get('ty', ''))
+            if re.fullmatch(r'[A-Z][A-Za-z0-9]*', src) and 'local' in pl and not pl.get('proj'):
+                # a type parameter of a spliced generic helper: the type of what the caller assigned to that parameter
+                cur_l = pl['local']
+                for _hop in range(8):
+                    srcs = []
+                    for bl2 in rec['blocks']:
+                        for st in bl2['stmts']:
+                            if st.get('k') == 'assign' and st['lhs']['local'] == cur_l and not st['lhs']['proj'] and st.get('rv') == 'use':
+                                o = st['ops'][0]
+                                srcs.append(o.get('copy') or o.get('move') or o.get('const') or {})
+                    if len(srcs) != 1:
+                        break
+                    ty2 = str(srcs[0].get('ty', ''))
+                    if not re.fullmatch(r'[A-Z][A-Za-z0-9]*', ty2):
+                        src = ty2
+                        break
+                    if 'local' not in srcs[0] or srcs[0].get('proj'):
+                        break
+                    cur_l = srcs[0]['local']
+            if len(gen) != 2 or not src:
+                continue
+            target = '<%s as core::convert::From<%s>>::from' % (gen[1], src)
+            if target in facts.bodies:
+                t['callee'] = dict(c, path=target, decl=target, inst=target, local=True, resolved=True, trait='core::convert::From')
+                hit = True
+                n += 1
+        if hit:
+            facts.bodies[q] = body_cls(rec, facts)
+    return n
+
+
 def splice_new_helpers(facts, body_cls):
     """see module docstring; returns [(helper path, [callers])] for the evidence"""
     ref = reference()
@@ -423,8 +470,8 @@ def splice_new_helpers(facts, body_cls):
     for p, b in facts.bodies.items():
         if b.kind not in ('fn', 'method') or p in ref or not b.file.startswith('src/'):
             continue
-        if ' as ' in p and '>::' in p:          # trait impl method: reached by dispatch
-            continue
+        if ' as ' in p and '>::' in p and not (' as core::convert::From<' in p and p.endswith('>>::from')):
+            continue                             # trait impl method: reached by dispatch (a From impl is called by name)
         if len(b.blocks) > MAX_BLOCKS:
             continue
         cand[p] = b
@@ -442,8 +489,12 @@ def splice_new_helpers(facts, body_cls):
             callers[hp].add(q)
     ok = {}
     for p, b in cand.items():
-        if p in trait_methods or not callers[p] or p in callers[p]:
+        is_from = ' as core::convert::From<' in p and p.endswith('>>::from')
+        if (p in trait_methods and not is_from) or not callers[p] or p in callers[p]:
             continue
+        if is_from and any(t_.get('k') == 'call' and (t_.get('callee') or {}).get('path') == 'core::convert::Into::into' and ((t_.get('callee') or {}).get('gen') or [None, None])[1] == p[1:].split(' as ')[0]
+                           for ob in facts.bodies.values() for t_ in (bl_['term'] for bl_ in ob.rec['blocks'])):
+            continue              # an `.into()` to this type is still unresolved somewhere: it may reach this impl
         if any(_uses_as_value(ob.rec, p) for ob in facts.bodies.values()):
             continue
         # unresolved calls that may reach it (generic / dyn) cannot exist for an inherent fn; fn-pointer use is excluded above
